@@ -99,6 +99,13 @@ func genText(r *rand.Rand, noFault bool) *Text {
 	pos := r.Intn(nHealthy + 1)
 	words := []string{"alpha", "check", "limit", "score", "risk", "quota"}
 	g.noise(2)
+	if r.Intn(60) == 0 {
+		// a very long text: the faulty construct sits beyond line 65535 (a position stored in 16 bits wraps)
+		pad := 65400 + r.Intn(3000)
+		for i := 0; i < pad; i++ {
+			g.lines = append(g.lines, "")
+		}
+	}
 	for i := 0; i <= nHealthy; i++ {
 		name := fmt.Sprintf("%s_%d", words[r.Intn(len(words))], i)
 		switch r.Intn(6) {
